@@ -17,7 +17,58 @@ fn supplied<T: MaybeDynSized<Header = HeaderTagHeader> + ?Sized>(t: &T) -> Vec<u
     b[..t.header().size() as usize].to_vec()
 }
 
+/// Content seeds from LOOK_BASE on select "look-alike" contents: the tag's 32-bit fields are taken, digit by digit,
+/// from LOOK (values that make tag bytes resemble an end tag, a tag header or the header magic).
+const LOOK_BASE: usize = 1 << 24;
+const LOOK: [u32; 4] = [0, 8, 16, 0xE852_50D6];
+
 fn call(b: Builder, m: &mut Vec<Option<Vec<u8>>>, slot: usize, c: usize) -> Builder {
+    if c >= LOOK_BASE {
+        let code = c - LOOK_BASE;
+        let fl = if code % 2 == 0 { HeaderTagFlag::Required } else { HeaderTagFlag::Optional };
+        let d = |i: u32| LOOK[(code / 2 / 4usize.pow(i)) % 4];
+        return match slot {
+            0 => {
+                // digits are request ids; the count is in the digit above them (0..=4)
+                let n = (code / 2 / 4usize.pow(4)) % 5;
+                let reqs: Vec<MbiTagTypeId> = (0..n as u32).map(|i| MbiTagTypeId::new(d(i))).collect();
+                let t = InformationRequestHeaderTag::new(fl, &reqs);
+                m[slot] = Some(supplied(&*t));
+                b.information_request_tag(t)
+            }
+            1 => {
+                let t = AddressHeaderTag::new(fl, d(0), d(1), d(2), d(3));
+                m[slot] = Some(supplied(&t));
+                b.address_tag(t)
+            }
+            2 => {
+                let t = EntryAddressHeaderTag::new(fl, d(0));
+                m[slot] = Some(supplied(&t));
+                b.entry_tag(t)
+            }
+            4 => {
+                let t = FramebufferHeaderTag::new(fl, d(0), d(1), d(2));
+                m[slot] = Some(supplied(&t));
+                b.framebuffer_tag(t)
+            }
+            7 => {
+                let t = EntryEfi32HeaderTag::new(fl, d(0));
+                m[slot] = Some(supplied(&t));
+                b.efi_32_tag(t)
+            }
+            8 => {
+                let t = EntryEfi64HeaderTag::new(fl, d(0));
+                m[slot] = Some(supplied(&t));
+                b.efi_64_tag(t)
+            }
+            9 => {
+                let t = RelocatableHeaderTag::new(fl, d(0), d(1), d(2), [RelocatableHeaderTagPreference::None, RelocatableHeaderTagPreference::Low, RelocatableHeaderTagPreference::High][(code / 2 / 64) % 3]);
+                m[slot] = Some(supplied(&t));
+                b.relocatable_tag(t)
+            }
+            _ => call(b, m, slot, code % 12),
+        };
+    }
     let s = c as u32;
     let fl = if c % 2 == 0 { HeaderTagFlag::Required } else { HeaderTagFlag::Optional };
     match slot {
@@ -224,6 +275,39 @@ fn run(ctx: &mut Ctx) {
                 ctx.nontrivial();
                 run_program(ctx, 0, &prog, &|| format!("contents {} seed {}", SLOT_NAMES[slot], c));
             });
+        }
+    }
+    ctx.bound("lookalike_contents", "every slot with 32-bit fields: all field combinations over {0, 8, 16, 0xE85250D6} (information requests: all lists of length 0..=4 over those ids, 0 = End and 8 = Framebuffer), both flags, with the tag alone (so it is the last tag before the end tag), before a module-align tag and after an information request; tag bytes that look like an end tag, a tag header or the magic must neither end the built header early nor stop it loading");
+    for slot in [0usize, 1, 2, 4, 7, 8, 9] {
+        let ncodes = 2 * match slot {
+            0 => 4usize.pow(4) * 5,
+            1 => 256,
+            4 => 64,
+            9 => 64 * 3,
+            _ => 4,
+        };
+        for code in 0..ncodes {
+            if slot == 0 {
+                // digits above the count are unused
+                let n = (code / 2 / 256) % 5;
+                if (code / 2 % 256) / 4usize.pow(n as u32) != 0 {
+                    continue;
+                }
+            }
+            for shape in 0..3 {
+                let me = (slot, LOOK_BASE + code);
+                let prog: Vec<(usize, usize)> = match shape {
+                    0 => vec![me],
+                    1 => vec![me, (5, 0)],
+                    _ => vec![(if slot == 0 { 1 } else { 0 }, 2), me],
+                };
+                let describe = || J::obj().set("part", "lookalike").set("slot", SLOT_NAMES[slot]).set("code", code).set("shape", ["alone", "before module_align", "after another tag"][shape]).set("fields_from", "digits of code/2 in base 4 index {0, 8, 16, 0xE85250D6}");
+                ctx.leaf(describe, |ctx| {
+                    ctx.state_direct();
+                    ctx.nontrivial();
+                    run_program(ctx, (code as u32 % 2) * 4, &prog, &|| format!("look-alike contents {} code {} shape {}", SLOT_NAMES[slot], code, shape));
+                });
+            }
         }
     }
 }
